@@ -1283,6 +1283,7 @@ func (fr *Frame) slice(i *ssa.Slice, st *State, reach Term) *State {
 			noff = add(x.Off, lo)
 		}
 		fr.vals[i] = Val{K: KSlice, T: i.Type(), A: x.A, Off: noff, Len: sub(hi, lo), Cap: nc}
+		fr.subsliceLemma(x, lo, add(x.Off, lo), reach)
 		return st
 	case KArr:
 		at := x.T.Underlying().(*types.Pointer).Elem().Underlying().(*types.Array)
@@ -1299,6 +1300,37 @@ func (fr *Frame) slice(i *ssa.Slice, st *State, reach Term) *State {
 	}
 	encFail("slice of kind %v", x.K)
 	return nil
+}
+
+// subsliceLemma: an element of the parent view is also an element of the sub-slice view, index shifted by lo.
+// A consequence of the shift axiom (both sides are a[o+k]) stated with the parent's read as trigger, so that facts
+// a callee states about the sub-slice apply to reads written against the parent.
+func (fr *Frame) subsliceLemma(parent Val, lo, noff Term, reach Term) {
+	if parent.Off == "" || parent.Off == "0" || lo == "0" || strings.Contains(parent.Off, "!q") || strings.Contains(lo, "!q") {
+		return
+	}
+	sl, ok := parent.T.Underlying().(*types.Slice)
+	if !ok {
+		return
+	}
+	seen := map[string]bool{}
+	for _, sc := range fr.v.leafComps(sl.Elem()) {
+		if seen[sc.sort] {
+			continue
+		}
+		seen[sc.sort] = true
+		key := "sublemma:" + sc.sort + ":" + parent.Off + ":" + lo + ":" + reach
+		if fr.v.facts[key] {
+			continue
+		}
+		fr.v.facts[key] = true
+		pv := fr.v.shift(fr.ctx, "a!", parent.Off, sc.sort)
+		cv := fr.v.shift(fr.ctx, "a!", noff, sc.sort)
+		// noff is parent.Off + lo: the offset of the sub-slice of a non-nil parent (for a nil parent lo is 0 and the
+		// lemma is not needed); stated for all arrays a and indices k, it is the shift axiom applied twice
+		fr.ctx.assert(fmt.Sprintf("(forall ((a! %s) (k! Int)) (! (= (select %s (- k! %s)) (select %s k!)) :pattern ((select %s k!))))",
+			arrSort(sc.sort), cv, lo, pv, pv), "sub-slice view (lemma)")
+	}
 }
 
 func (fr *Frame) makeSlice(i *ssa.MakeSlice, st *State, reach Term) *State {
